@@ -68,8 +68,9 @@ EXPECTED_SIZE_RE = (r"([0-9]+[eE][-+][0-9]+|\d*\.?\d+)" r"\s*(\w+)?(\s*\(\s*(\d+
 
 
 def read_unit_regex(name, rx):
-    """(letters, optional_i) of group 2 of a unit regex; raises if the rest of the
-    pattern is not what OsloModel/Units.lean transcribes."""
+    """(letters, optional_i, end_anchor_allows_newline) of a unit regex: group 2's class and whether the
+    pattern ends in `$` (matches before one final newline) or `\\Z`; raises if the rest of the pattern is
+    not what OsloModel/Units.lean transcribes."""
     from re import _parser as P
     from re import _constants as C
     if rx.flags != re.UNICODE:
@@ -95,7 +96,14 @@ def read_unit_regex(name, rx):
         raise ValueError('%s: prefix group of %r is not ([letters]i?)?' % (name, rx.pattern))
     if set(letters) & set('bBi') or not letters.isascii() or not letters.isalpha():
         raise ValueError('%s: prefix class %r overlaps the unit letters' % (name, letters))
-    expected = r'(^[-+]?\d*\.?\d+)([%s]%s)?(b|bit|B)$' % (letters, 'i?' if opt_i else '')
+    last = tree[-1] if tree else None
+    if last == (C.AT, C.AT_END):
+        nl_ok, anchor = True, '$'
+    elif last == (C.AT, C.AT_END_STRING):
+        nl_ok, anchor = False, r'\Z'
+    else:
+        raise ValueError('%s: regex %r does not end in $ or \\Z' % (name, rx.pattern))
+    expected = r'(^[-+]?\d*\.?\d+)([%s]%s)?(b|bit|B)%s' % (letters, 'i?' if opt_i else '', anchor)
     if str(P.parse(expected, rx.flags)) != str(P.parse(rx.pattern, rx.flags)):
         raise ValueError('%s: regex %r is not the shape the model transcribes (%r)' % (name, rx.pattern, expected))
     # cross-check by probing the compiled pattern with every 1- and 2-letter candidate
@@ -108,7 +116,10 @@ def read_unit_regex(name, rx):
     want = set(letters) | ({c + 'i' for c in letters} if opt_i else set())
     if admitted != want:
         raise ValueError('%s: probed prefix set %r differs from the parsed class %r' % (name, sorted(admitted), sorted(want)))
-    return ''.join(sorted(set(letters))), opt_i
+    # cross-check the anchor by probing
+    if bool(rx.match('1B\n')) != nl_ok or rx.match('1B\n\n') or not rx.match('1B'):
+        raise ValueError('%s: end anchor of %r does not behave like %s' % (name, rx.pattern, anchor))
+    return ''.join(sorted(set(letters))), opt_i, nl_ok
 
 
 def tables():
@@ -122,8 +133,8 @@ def tables():
     for k, (base, rx) in su.UNIT_SYSTEM_INFO.items():
         if not isinstance(k, str) or not (base is None or (type(base) is int and base >= 0)):
             raise ValueError('UNIT_SYSTEM_INFO entry %r has base %r' % (k, base))
-        letters, opt_i = read_unit_regex(k, rx)
-        systems[k] = (base, letters, opt_i)
+        letters, opt_i, nl_ok = read_unit_regex(k, rx)
+        systems[k] = (base, letters, opt_i, nl_ok)
     q = _qemu_cls()
     if q.SIZE_RE.pattern != EXPECTED_SIZE_RE or q.SIZE_RE.flags != (re.UNICODE | re.IGNORECASE):
         raise ValueError('QemuImgInfo.SIZE_RE %r flags %r is not the pattern the model transcribes'
@@ -147,13 +158,15 @@ def generate():
     out.append(',\n'.join('  (%s, %d)' % (lean_chars(k), exps[k]) for k in sorted(exps)))
     out += [']', '',
             '/-- UNIT_SYSTEM_INFO, sorted by key: (key, base, letters of the prefix class of the compiled regex',
-            '    (sorted), whether the class is followed by an optional `i`) -/',
-            'def unitSystemInfo : List (List Char × Option Nat × List Char × Bool) := [']
+            '    (sorted), whether the class is followed by an optional `i`, whether the end anchor of the regex',
+            '    lets one final newline through: `$` true, `\\Z` false) -/',
+            'def unitSystemInfo : List (List Char × Option Nat × List Char × Bool × Bool) := [']
     rows = []
     for k in sorted(systems):
-        base, letters, opt_i = systems[k]
-        rows.append('  (%s, %s, %s, %s)' % (lean_chars(k), 'none' if base is None else 'some %d' % base,
-                                            lean_chars(letters), 'true' if opt_i else 'false'))
+        base, letters, opt_i, nl_ok = systems[k]
+        rows.append('  (%s, %s, %s, %s, %s)' % (lean_chars(k), 'none' if base is None else 'some %d' % base,
+                                                lean_chars(letters), 'true' if opt_i else 'false',
+                                                'true' if nl_ok else 'false'))
     out.append(',\n'.join(rows))
     out += [']', '',
             '/-- code points below 128 matched by `\\s` in a str pattern of the running interpreter -/',
@@ -654,15 +667,11 @@ def assess_s2b(sys, text, ri):
     if sp is None:
         if py == ('err', 'ValueError'):
             return None
-        if text.endswith('\n') and spec(sys, text[:-1]) is not None and impl_s2b(sys, text[:-1], ri) == py:
-            # `$` matches before a final newline: the text is treated as the text without it
-            inner = assess_s2b(sys, text[:-1], ri)
-            if inner is not None:
-                return inner            # and that text fails in its own right (same outcome)
-            return ('accepted-trailing-newline', 'text ending in a newline is accepted: %s' % show(py),
-                    'N3-trailing-newline')
         if py[0] == 'err':
             return ('wrong-exception', 'text outside the grammar of %r raised %s, not ValueError' % (sys, py[1]), None)
+        if text.endswith('\n') and spec(sys, text[:-1]) is not None:
+            # the repaired defect N3-trailing-newline (`$` instead of `\\Z`) is back
+            return ('accepted-trailing-newline', 'text ending in a newline is accepted: %s' % show(py), None)
         return ('accepted', 'text outside the grammar of %r is accepted: %s' % (sys, show(py)), None)
     mag, q, mdiv = sp
     oor = out_of_range(mag, q, mdiv)
@@ -807,6 +816,10 @@ QEMU_SEARCH_FIXED = ['1e+03 MiB (1048575488 bytes)', '1e+3 (7 bytes)', '2.5e+3G 
 
 def search_texts(ctx, n):
     rng = ctx.rng
+    for sys in SYSTEMS:         # the repaired N3-trailing-newline: must be ValueError
+        for ri in (False, True):
+            yield sys, '1KB\n' if sys != 'SI' else '1kB\n', ri
+            yield sys, '-2.5bit\n', ri
     for sys in SYSTEMS:
         for pfx in [''] + ALL_PREFIXES:
             for unit in UNITS:
@@ -911,7 +924,7 @@ def search(ctx, seeds, full=False):
 # ---------------------------------------------------------------------------
 # known findings
 
-KNOWN_CLASSES = ('N3-float-rounding', 'N3-trailing-newline', 'N3-float-range')
+KNOWN_CLASSES = ('N3-float-rounding', 'N3-float-range')     # N3-trailing-newline is fixed: a violation if it returns
 
 
 def classify(ctx, failure, listed_findings):
@@ -966,7 +979,7 @@ LEVEL_TEXT = ('Machine-checked proof (Lean 4) over a hand-written model of strin
               'QemuImgInfo._extract_bytes using the tables and regex prefix classes extracted from the code on every '
               'run: for every sign, digit string, admitted prefix, unit and unit system the model returns the exact '
               'quantity (ceiling for return_int) - partial: inside the binary64 range; every other text, foreign prefix '
-              'or unknown system gives ValueError - partial: a single trailing newline is accepted (known finding N3); '
+              'or unknown system - and a text with a trailing newline, the regexes ending in \\Z (generated anchor table) - gives ValueError (full); '
               'no error kind other than ValueError except OverflowError for magnitudes beyond binary64 (known finding); '
               'an explicit "(N bytes)" figure takes precedence in qemu size fields (full). Model tied to the code by a '
               'differential correspondence with exact Fraction comparison (2^-50 tolerance where binary64 is inexact).')
